@@ -152,6 +152,19 @@ func (dm *DMap) deleteOnCluster(hkey uint64, key string, f *fragment) error {
 
 func (dm *DMap) deleteKey(key string) error {
 	hkey := partitions.HKey(dm.name, key)
+
+	// Fragments move from the previous owners to this member, never the other way. Delete on
+	// the previous owners first, and before taking the lock of the local fragment: a previous
+	// owner that is handing its fragment over answers when the move is complete, and the move
+	// cannot complete while this member keeps the fragment locked that has to merge it.
+	owners := dm.s.primary.PartitionOwnersByHKey(hkey)
+	if len(owners) == 0 {
+		panic("partition owners list cannot be empty")
+	}
+	if err := dm.deleteFromPreviousOwners(key, owners); err != nil {
+		return err
+	}
+
 	part := dm.getPartitionByHKey(hkey, partitions.PRIMARY)
 	f, err := dm.loadOrCreateLockedFragment(part)
 	if err != nil {
@@ -159,16 +172,28 @@ func (dm *DMap) deleteKey(key string) error {
 	}
 	defer f.Unlock()
 
+	// This member may have taken the partition over without its data: after a fail-over the
+	// key still lives on a backup. Delete there whether or not there is a local copy.
+	if dm.s.config.ReplicaCount != 0 {
+		if err := dm.deleteBackupOnCluster(hkey, key); err != nil {
+			return err
+		}
+	}
+
 	// Check the HKey before trying to delete it.
 	if !f.storage.Check(hkey) {
 		// DeleteMisses is the number of deletions reqs for missing keys
 		DeleteMisses.Increase(1)
-		// This member may have taken the partition over without its data: after a fail-over
-		// or during rebalancing the key still lives on a backup or on a previous owner.
-		return dm.deleteOnOtherMembers(hkey, key)
+		return nil
 	}
 
-	return dm.deleteOnCluster(hkey, key, f)
+	if err := f.storage.Delete(hkey); err != nil {
+		return err
+	}
+
+	// DeleteHits is the number of deletion reqs resulting in an item being removed.
+	DeleteHits.Increase(1)
+	return nil
 }
 
 func (dm *DMap) deleteKeys(ctx context.Context, keys ...string) (int, error) {
